@@ -4,6 +4,9 @@ import (
 	"bytes"
 	"fmt"
 	"io"
+	"regexp"
+	"sort"
+	"strconv"
 
 	"seehuhn.de/go/postscript"
 	"seehuhn.de/go/postscript/afm"
@@ -190,6 +193,13 @@ func genInput(t *sim.Tape, allowed []Surface, st *sim.Stats) *Input {
 			}
 		}
 		f := gen.GenFont(t, 14)
+		if t.Choose(6) == 0 {
+			// one or two charstrings longer than any buffer a reader is likely
+			// to have (0.7-2 kB each)
+			for i := 1 + t.Choose(2); i > 0; i-- {
+				f.Glyphs[fmt.Sprintf("long%d", i)] = gen.LongGlyph(t)
+			}
+		}
 		format := sim.Pick(t, gen.FontFormats)
 		expensive := t.Choose(1500) == 0
 		data, err := gen.FontFile(f, format)
@@ -223,6 +233,9 @@ func genInput(t *sim.Tape, allowed []Surface, st *sim.Stats) *Input {
 		if i := bytes.Index(data, []byte(" RD ")); i >= 0 {
 			in.Marks = append(in.Marks, i+3, i+4, i+5)
 		}
+		// both ends of the binary strings (the longest ones first: they span
+		// buffer boundaries)
+		in.Marks = append(in.Marks, rdStringBounds(data)...)
 		if len(data) > 0 && data[0] == 0x80 {
 			in.Marks = append(in.Marks, 1, 2, 5, 6)
 			// later segment headers
@@ -285,4 +298,45 @@ func genInput(t *sim.Tape, allowed []Surface, st *sim.Stats) *Input {
 		in.Marks = nil
 	}
 	return in
+}
+
+var rdString = regexp.MustCompile(`(\d+) RD `)
+
+// rdStringBounds returns the file offsets at which the `n RD <n bytes>` binary
+// strings of a font program begin and end - in clear text, or inside a binary
+// eexec section (which is decrypted to find them; encryption keeps offsets).
+// At most four strings, longest first.
+func rdStringBounds(data []byte) []int {
+	base, text := 0, data
+	if i := bytes.Index(data, []byte("currentfile eexec")); i >= 0 && i+18 < len(data) {
+		rest := data[i+18:]
+		hexLike := true
+		for _, b := range rest[:min(len(rest), 4)] {
+			if !(b >= '0' && b <= '9' || b >= 'a' && b <= 'f' || b >= 'A' && b <= 'F') {
+				hexLike = false
+			}
+		}
+		if hexLike {
+			return nil
+		}
+		base, text = i+18, gen.EexecDecrypt(rest)
+	}
+	type span struct{ a, b int }
+	var spans []span
+	for _, m := range rdString.FindAllSubmatchIndex(text, -1) {
+		n, err := strconv.Atoi(string(text[m[2]:m[3]]))
+		if err != nil || m[1]+n > len(text) {
+			continue
+		}
+		spans = append(spans, span{base + m[1], base + m[1] + n})
+	}
+	sort.Slice(spans, func(i, j int) bool { return spans[i].b-spans[i].a > spans[j].b-spans[j].a })
+	var out []int
+	for i, sp := range spans {
+		if i >= 4 {
+			break
+		}
+		out = append(out, sp.a, sp.b)
+	}
+	return out
 }
